@@ -254,6 +254,7 @@ pub fn world_cfg_strategy(p: &CfgProfile) -> BoxedStrategy<WorldCfg> {
                     poor_balance: 3 * d,
                     whitelist_whale: wl && p.caps,
                     alien: p.alien,
+                    orphan: false,
                     }
                 })
         })
